@@ -17,11 +17,11 @@ import (
 
 // VerifWireFrame mirrors the unexported frame struct.
 type VerifWireFrame struct {
-	AckNo, FrameNo                 uint32
-	DataLength                     uint16
-	REQ, RESP, REL, ACK, FIN, RTR  bool
-	TubeID                         byte
-	Data                           []byte
+	AckNo, FrameNo                uint32
+	DataLength                    uint16
+	REQ, RESP, REL, ACK, FIN, RTR bool
+	TubeID                        byte
+	Data                          []byte
 }
 
 func (v VerifWireFrame) in() *frame {
@@ -29,54 +29,54 @@ func (v VerifWireFrame) in() *frame {
 		flags: frameFlags{REQ: v.REQ, RESP: v.RESP, REL: v.REL, ACK: v.ACK, FIN: v.FIN, RTR: v.RTR}}
 }
 
-func verifOut(f *frame) VerifWireFrame {
+func verifWireOut(f *frame) VerifWireFrame {
 	return VerifWireFrame{AckNo: f.ackNo, FrameNo: f.frameNo, DataLength: f.dataLength, TubeID: f.tubeID, Data: f.data,
 		REQ: f.flags.REQ, RESP: f.flags.RESP, REL: f.flags.REL, ACK: f.flags.ACK, FIN: f.flags.FIN, RTR: f.flags.RTR}
 }
 
-// VerifFrameToBytes = (*frame).toBytes
-func VerifFrameToBytes(v VerifWireFrame) []byte { return v.in().toBytes() }
+// VerifWireFrameToBytes = (*frame).toBytes
+func VerifWireFrameToBytes(v VerifWireFrame) []byte { return v.in().toBytes() }
 
-// VerifFromBytes = fromBytes
-func VerifFromBytes(b []byte) (VerifWireFrame, error) {
+// VerifWireFromBytes = fromBytes
+func VerifWireFromBytes(b []byte) (VerifWireFrame, error) {
 	f, err := fromBytes(b)
 	if err != nil || f == nil {
 		return VerifWireFrame{}, err
 	}
-	return verifOut(f), nil
+	return verifWireOut(f), nil
 }
 
-// VerifInitFrame mirrors initiateFrame.
-type VerifInitFrame struct {
-	FrameNo                        uint32
-	TubeID, TubeType               byte
-	Data                           []byte
-	DataLength                     uint16
-	REQ, RESP, REL, ACK, FIN, RTR  bool
+// VerifWireInitFrame mirrors initiateFrame.
+type VerifWireInitFrame struct {
+	FrameNo                       uint32
+	TubeID, TubeType              byte
+	Data                          []byte
+	DataLength                    uint16
+	REQ, RESP, REL, ACK, FIN, RTR bool
 }
 
-// VerifInitToBytes = (*initiateFrame).toBytes
-func VerifInitToBytes(v VerifInitFrame) []byte {
+// VerifWireInitToBytes = (*initiateFrame).toBytes
+func VerifWireInitToBytes(v VerifWireInitFrame) []byte {
 	p := &initiateFrame{frameNo: v.FrameNo, tubeID: v.TubeID, tubeType: TubeType(v.TubeType), data: v.Data, dataLength: v.DataLength,
 		flags: frameFlags{REQ: v.REQ, RESP: v.RESP, REL: v.REL, ACK: v.ACK, FIN: v.FIN, RTR: v.RTR}}
 	return p.toBytes()
 }
 
-// VerifFromInitiateBytes = fromInitiateBytes
-func VerifFromInitiateBytes(b []byte) VerifInitFrame {
+// VerifWireFromInitiateBytes = fromInitiateBytes
+func VerifWireFromInitiateBytes(b []byte) VerifWireInitFrame {
 	p := fromInitiateBytes(b)
-	return VerifInitFrame{FrameNo: p.frameNo, TubeID: p.tubeID, TubeType: byte(p.tubeType), Data: p.data, DataLength: p.dataLength,
+	return VerifWireInitFrame{FrameNo: p.frameNo, TubeID: p.tubeID, TubeType: byte(p.tubeType), Data: p.data, DataLength: p.dataLength,
 		REQ: p.flags.REQ, RESP: p.flags.RESP, REL: p.flags.REL, ACK: p.flags.ACK, FIN: p.flags.FIN, RTR: p.flags.RTR}
 }
 
-// VerifReframe is what the muxer receiver does with a frame it treats as an initiate frame:
+// VerifWireReframe is what the muxer receiver does with a frame it treats as an initiate frame:
 // fromInitiateBytes(frame.toBytes()).
-func VerifReframe(b []byte) (VerifInitFrame, error) {
+func VerifWireReframe(b []byte) (VerifWireInitFrame, error) {
 	f, err := fromBytes(b)
 	if err != nil || f == nil {
-		return VerifInitFrame{}, err
+		return VerifWireInitFrame{}, err
 	}
-	return VerifFromInitiateBytes(f.toBytes()), nil
+	return VerifWireFromInitiateBytes(f.toBytes()), nil
 }
 
 func verifWireLog() *logrus.Entry {
@@ -85,9 +85,9 @@ func verifWireLog() *logrus.Entry {
 	return logrus.NewEntry(l)
 }
 
-// VerifUnreliableWrite runs the production (*Unreliable).WriteMsgUDP on an initiated tube whose
+// VerifWireUnreliableWrite runs the production (*Unreliable).WriteMsgUDP on an initiated tube whose
 // outgoing queue is captured; returns the encoded frame that was queued (nil if none).
-func VerifUnreliableWrite(id byte, frameNo uint32, b []byte) (queued []byte, n int, err error) {
+func VerifWireUnreliableWrite(id byte, frameNo uint32, b []byte) (queued []byte, n int, err error) {
 	u := &Unreliable{
 		id:        id,
 		state:     atomic.Value{},
@@ -108,11 +108,11 @@ func VerifUnreliableWrite(id byte, frameNo uint32, b []byte) (queued []byte, n i
 	return
 }
 
-// VerifPreloadedReliable returns a Reliable tube in the initiated state whose receive buffer
+// VerifWirePreloadedReliable returns a Reliable tube in the initiated state whose receive buffer
 // already holds b followed by end-of-stream (as after the peer wrote b and closed). Read is
 // the production (*Reliable).Read / receiver.read. Used to feed exact byte strings to decoders
 // whose parameter type is *tubes.Reliable. Writes are discarded.
-func VerifPreloadedReliable(b []byte) *Reliable {
+func VerifWirePreloadedReliable(b []byte) *Reliable {
 	log := verifWireLog()
 	r := &Reliable{
 		tubeState:  initiated,
@@ -133,10 +133,10 @@ func VerifPreloadedReliable(b []byte) *Reliable {
 	return r
 }
 
-// VerifRecvAck builds a sender in the given state (ackNo, one unacknowledged frame per entry of
-// dataLens with consecutive frame numbers starting at uint32(ackNo), window size, duplicate-ack
-// counter), runs the production recvAck(ack) and reports the state afterwards.
-func VerifRecvAck(ackNo uint64, dataLens []uint16, window uint16, dup int, ack uint32) (newAck uint64, remaining int, missing uint32, err error) {
+// VerifWireRecvAck builds a sender in the given state (ackNo, one unacknowledged frame per entry of
+// dataLens with consecutive frame numbers starting at uint32(ackNo), frameNo just past them,
+// window size, duplicate-ack counter), runs the production recvAck(ack) and reports the state afterwards.
+func VerifWireRecvAck(ackNo uint64, dataLens []uint16, window uint16, dup int, ack uint32) (newAck uint64, remaining int, missing uint32, err error) {
 	s := newSender(verifWireLog())
 	defer s.RetransmitTicker.Stop()
 	s.ackNo = ackNo
@@ -150,14 +150,16 @@ func VerifRecvAck(ackNo uint64, dataLens []uint16, window uint16, dup int, ack u
 		}{f, time.Now()})
 	}
 	s.unacked = uint16(len(dataLens))
+	// keep the sender's own invariant: frame numbers [ackNo, frameNo) are exactly the buffered frames
+	s.frameNo = uint32(ackNo) + uint32(len(dataLens))
 	missing, err = s.recvAck(ack)
 	return s.ackNo, len(s.frames), missing, err
 }
 
-// VerifReliableWriteMsgUDP runs the production (*Reliable).WriteMsgUDP on a preloaded tube and
+// VerifWireReliableWriteMsgUDP runs the production (*Reliable).WriteMsgUDP on a preloaded tube and
 // returns the bytes it put into the stream (the data of the frames the sender buffered).
-func VerifReliableWriteMsgUDP(b []byte) (stream []byte, n int, err error) {
-	r := VerifPreloadedReliable(nil)
+func VerifWireReliableWriteMsgUDP(b []byte) (stream []byte, n int, err error) {
+	r := VerifWirePreloadedReliable(nil)
 	n, _, err = r.WriteMsgUDP(b, nil, nil)
 	r.sender.m.Lock()
 	for _, f := range r.sender.frames {
@@ -167,14 +169,21 @@ func VerifReliableWriteMsgUDP(b []byte) (stream []byte, n int, err error) {
 	return
 }
 
-// VerifReliableReadMsgUDP runs the production (*Reliable).ReadMsgUDP on a tube whose stream holds
-// exactly b; returns the message, the bytes left unread and the error.
-func VerifReliableReadMsgUDP(b []byte) (msg []byte, left int, err error) {
-	r := VerifPreloadedReliable(b)
-	buf := make([]byte, 1<<17)
-	n, _, _, _, err := r.ReadMsgUDP(buf, nil)
+// VerifWireUnread is the number of bytes still buffered in a preloaded tube.
+func VerifWireUnread(r *Reliable) int {
 	r.recvWindow.m.Lock()
-	left = r.recvWindow.buffer.Len()
-	r.recvWindow.m.Unlock()
-	return buf[:n], left, err
+	defer r.recvWindow.m.Unlock()
+	return r.recvWindow.buffer.Len()
+}
+
+// VerifWireReliableReadMsgUDP runs the production (*Reliable).ReadMsgUDP on a tube whose stream holds
+// exactly b; returns the message, the bytes left unread and the error.
+func VerifWireReliableReadMsgUDP(b []byte) (msg []byte, left int, err error) {
+	return VerifWireReliableReadMsgUDPOn(VerifWirePreloadedReliable(b), make([]byte, 1<<17))
+}
+
+// VerifWireReliableReadMsgUDPOn is the call alone, on a prepared tube and buffer.
+func VerifWireReliableReadMsgUDPOn(r *Reliable, buf []byte) (msg []byte, left int, err error) {
+	n, _, _, _, err := r.ReadMsgUDP(buf, nil)
+	return buf[:n], VerifWireUnread(r), err
 }
